@@ -347,7 +347,7 @@ func (fr *Frame) modCall(call *ast.CallExpr, ms *modSet, info *types.Info, visit
 		return
 	}
 	if c := fr.eng.contractFor(callee); c != nil {
-		if c.Pure && len(c.GhostAdds) == 0 {
+		if c.Pure && len(c.GhostAdds) == 0 && len(c.GhostPuts) == 0 {
 			return
 		}
 		if !c.HasFrame {
@@ -360,6 +360,10 @@ func (fr *Frame) modCall(call *ast.CallExpr, ms *modSet, info *types.Info, visit
 		}
 		for _, ga := range c.GhostAdds {
 			hn, hs := ghostHeap(ga.Set)
+			ms.touch(hn, hs)
+		}
+		for _, gp := range c.GhostPuts {
+			hn, hs := ghostMapHeap(gp.Map)
 			ms.touch(hn, hs)
 		}
 		return
